@@ -5,48 +5,6 @@ temp names), any interleaving, crash anywhere.
 import ArvVerif.Proofs.C02_Write
 namespace ArvVerif.C02
 
-/-- `s` reads and writes nothing but the file at `p` -/
-def LocalAt (p : Path) : Step → Prop
-  | .nop => True
-  | .mkdirAll _ => True
-  | .createTemp q _ => q = p
-  | .append q _ => q = p
-  | .chtimes q _ => q = p
-  | .remove q => q = p
-  | .rename _ _ => False
-
-/-- what a local step does to the file at its path -/
-def localStep : Step → Option File → Option File
-  | .createTemp _ t, _ => some ⟨[], t⟩
-  | .append _ c, some f => some ⟨f.data ++ c, f.mtime⟩
-  | .chtimes _ t, some f => some ⟨f.data, t⟩
-  | .remove _, _ => none
-  | _, x => x
-
-theorem local_avoids {p q : Path} (hne : p ≠ q) {s : Step} (h : LocalAt p s) : s.avoids q := by
-  cases s <;> simp_all [LocalAt, Step.avoids]
-
-theorem get_apply_local {p : Path} {s : Step} (h : LocalAt p s) (fs : FS) :
-    (s.apply fs).get p = localStep s (fs.get p) := by
-  cases s with
-  | nop => rfl
-  | mkdirAll d => simp only [Step.apply]; split <;> rfl
-  | createTemp q t => cases h; simp [Step.apply, localStep]
-  | append q c =>
-    cases h
-    simp only [Step.apply]
-    cases hg : fs.get p with
-    | none => simp [localStep, hg]
-    | some f => simp [localStep]
-  | chtimes q t =>
-    cases h
-    simp only [Step.apply]
-    cases hg : fs.get p with
-    | none => simp [localStep, hg]
-    | some f => simp [localStep]
-  | rename a b => cases h
-  | remove q => cases h; simp [Step.apply, localStep]
-
 /-- What is left to do of one writer: local steps on its temp file `tmp`, possibly followed by the
 rename onto `bp` (`fin`), at which moment the temp file will hold `file`. Indexed by the present
 content `x` of the temp file. -/
@@ -155,75 +113,15 @@ theorem get_run_local {p : Path} {evs : List Ev} (h : ∀ e ∈ evs, LocalAt p e
     rw [run_cons, ih (fun e' he' => h e' (List.mem_cons_of_mem _ he')), get_apply_local (h e List.mem_cons_self)]
     rfl
 
-theorem appends_local (p : Path) (cs : List Bytes) : ∀ e ∈ appends p cs, LocalAt p e.eff := by
-  intro e he
-  obtain ⟨c, _, rfl⟩ := List.mem_map.1 he
-  rfl
-
-theorem wbPre_local (w : WBIn) : ∀ e ∈ wbPre w, LocalAt (tmpPath w.h w.sfx) e.eff := by
-  intro e he
-  simp only [wbPre, List.mem_cons, List.not_mem_nil, or_false] at he
-  rcases he with rfl | rfl | rfl
-  · trivial
-  · rfl
-  · trivial
-
 theorem wb_rem (fs : FS) (w : WBIn) :
     Rem (tmpPath w.h w.sfx) (blockPath w.h) ⟨w.chunks.flatten, w.now⟩ (writeBlockEvs w).2
       (fs.get (tmpPath w.h w.sfx)) (writeBlockEvs w).1 := by
-  have hpre := wbPre_local w
-  have happ := appends_local (tmpPath w.h w.sfx)
-  cases hf : w.fail <;> cases hr : w.rend <;> simp only [writeBlockEvs, hf, hr]
-  case none.eof =>
-    have hloc : ∀ e ∈ wbPre w ++ appends (tmpPath w.h w.sfx) w.chunks ++
-        [⟨wbPt 5, .nop⟩, ⟨wbPt 7, .chtimes (tmpPath w.h w.sfx) w.now⟩], LocalAt (tmpPath w.h w.sfx) e.eff := by
-      intro e he
-      simp only [List.mem_append, List.mem_cons, List.not_mem_nil, or_false] at he
-      rcases he with (he | he) | rfl | rfl
-      · exact hpre e he
-      · exact happ _ e he
-      · trivial
-      · rfl
-    have : (wbPre w ++ appends (tmpPath w.h w.sfx) w.chunks ++
-        [⟨wbPt 5, .nop⟩, ⟨wbPt 7, .chtimes (tmpPath w.h w.sfx) w.now⟩, ⟨wbPt 9, .rename (tmpPath w.h w.sfx) (blockPath w.h)⟩] : List Ev)
-        = (wbPre w ++ appends (tmpPath w.h w.sfx) w.chunks ++
-            [⟨wbPt 5, .nop⟩, ⟨wbPt 7, .chtimes (tmpPath w.h w.sfx) w.now⟩]) ++
-          [⟨wbPt 9, .rename (tmpPath w.h w.sfx) (blockPath w.h)⟩] := by simp
-    rw [this]
-    apply rem_append_local hloc
-    rw [← get_run_local hloc fs, get_tmp_after_copy fs w]
+  rcases wb_shape w with ⟨h2, hl⟩ | ⟨h2, _, _, he⟩
+  · rw [h2]; exact rem_of_local hl _
+  · rw [h2, he]
+    apply rem_append_local (wbBody_local w)
+    rw [← get_run_local (wbBody_local w) fs, get_tmp_after_body fs w]
     exact Rem.fin _
-  all_goals
-    apply rem_of_local
-    intro e he
-    simp only [List.mem_append, List.mem_cons, List.not_mem_nil, or_false] at he
-    first
-      | (rcases he with rfl; trivial)
-      | (rcases he with rfl | rfl <;> trivial)
-      | (rcases he with (he | he) | rfl | rfl
-         · exact hpre e he
-         · exact happ _ e he
-         · trivial
-         · rfl)
-      | (rcases he with (he | he) | rfl | rfl | rfl
-         · exact hpre e he
-         · exact happ _ e he
-         · trivial
-         · trivial
-         · rfl)
-      | (rcases he with (he | he) | rfl | rfl | rfl | rfl
-         · exact hpre e he
-         · exact happ _ e he
-         · trivial
-         · rfl
-         · trivial
-         · rfl)
-      | (rcases he with (he | he) | rfl | rfl | rfl
-         · exact hpre e he
-         · exact happ _ e he
-         · rfl
-         · trivial
-         · rfl)
 
 theorem tmpPath_inj {h s1 s2 : Name} (hs : s1 ≠ s2) : tmpPath h s1 ≠ tmpPath h s2 := by
   intro he
